@@ -186,6 +186,8 @@ func checkC09(r *Report) {
 	r.floor("C09.g/SKIP-COUNTER", "merge loops (inner index starting at the outer index + 1) in package semver", nK, 1)
 	boundsCopiedRule(r, p, "C09.i/BOUNDS-COPIED")
 	tiePrereleaseRule(r, p, "C09.l/TIE-PRERELEASE")
+	nMB := markersBothRule(r, p, "C09.m/MARKERS-BOTH")
+	r.floor("C09.m/MARKERS-BOTH", "functions of package semver that compare one number with both markers", nMB, 1)
 	nPF := preFlagRule(r, p, "C09.k/PRE-FLAG")
 	r.floor("C09.k/PRE-FLAG", "sites where the prerelease tags of a bound are dropped or a copied bound is bumped", nPF, 6)
 	nNP := numsPaddedRule(r, p, "C09.j/NUMS-PADDED")
